@@ -173,6 +173,11 @@ def run(ctx, res):
     res.ob(len(copy_loops) == 1)
     if len(copy_loops) != 1:
         res.errors.append("expected exactly one segment-copy loop, found %r" % sorted(copy_loops))
+    EH = "elf::header::ElfHeader32"
+    tables_ok = set()
+    res.ob(L.ehdr is not None)
+    if L.ehdr is None:
+        res.errors.append("the ELF header value was not identified (parse_elf_header32 not called?)")
     seg_seen = {"copy": 0, "skip": 0}
     got_seen = {"step": 0, "er5": 0}
     other_copy = 0
@@ -198,6 +203,11 @@ def run(ctx, res):
                 is_load = bv.eq(ty, bv.const(1, 64))
                 copies = [x for x in seg if x[0] == "copy"]
                 care = st.pc
+                # every program header of the file is visited
+                if L.ehdr is not None and ("pht", repr(e[1])) not in tables_ok:
+                    tables_ok.add(("pht", repr(e[1])))
+                    loadermod.check_table(res, e[1], "parse_program_header32", bv.zext(get(facts, EH, L.ehdr, "phnum").bits, 64), bv.zext(get(facts, EH, L.ehdr, "phoff").bits, 64),
+                                          care, "segment", "segment copy", differs, witness)
                 if copies:
                     seg_seen["copy"] = 1
                     bad = Mx.AND(care, Mx.NOT(is_load))
@@ -256,6 +266,10 @@ def run(ctx, res):
             hdr = L.ip.read_loc(st, hdr.root, hdr.path)
         is_got = strmodel.eq_var(name_t, ".got")
         care = Mx.AND(st.pc, strmodel.exclusivity())
+        if L.ehdr is not None and ("sht", repr(sec[-1][1])) not in tables_ok:
+            tables_ok.add(("sht", repr(sec[-1][1])))
+            loadermod.check_table(res, sec[-1][1], "parse_section_header32", bv.zext(get(facts, EH, L.ehdr, "shnum").bits, 64), bv.zext(get(facts, EH, L.ehdr, "shoff").bits, 64),
+                                  care, "got", "section loop (.got)", differs, witness)
         after = effs[effs.index(sec[-1]) + 1:]
         rn = [x for x in after if x[0] == "range-next"]
         if rn and "loop-back" in [x[0] for x in after] and isinstance(hdr, Agg):
